@@ -143,12 +143,8 @@ def run_shutdown(wk, sig, phases, appfin="within", graceful=3, bind="tcp", slack
         go.set()
         status = s.wait_exit(graceful + 15)
         elapsed = int((time.time() - t0) * 1000)
-        for c in clients:
-            c.join(graceful + 12)
-        ev = [{"e": "client", "phase": c.phase, "started": bool(c.started), "appfin": appfin, "outcome": c.outcome}
-              for c in clients]
-        ev.append({"e": "exit", "status": -1 if status is None else status, "elapsed_ms": elapsed})
-        time.sleep(0.2)
+        # the end state is read at the moment the master is gone, before the clients are waited for
+        time.sleep(0.25)
         survivors = [p for p in wpids if rp.proc_state(p) not in (None, "Z")]
         listening = False
         try:
@@ -157,8 +153,14 @@ def run_shutdown(wk, sig, phases, appfin="within", graceful=3, bind="tcp", slack
             listening = True
         except OSError:
             listening = False
-        ev.append({"e": "after", "workers": len(survivors), "listening": listening,
-                   "pidfile": os.path.exists(s.pidfile), "sockfile": bool(s.sockpath and os.path.exists(s.sockpath))})
+        after = {"e": "after", "workers": len(survivors), "listening": listening,
+                 "pidfile": os.path.exists(s.pidfile), "sockfile": bool(s.sockpath and os.path.exists(s.sockpath))}
+        for c in clients:
+            c.join(graceful + 12)
+        ev = [{"e": "client", "phase": c.phase, "started": bool(c.started), "appfin": appfin, "outcome": c.outcome}
+              for c in clients]
+        ev.append({"e": "exit", "status": -1 if status is None else status, "elapsed_ms": elapsed})
+        ev.append(after)
         tr = {"sig": sig, "graceful_ms": graceful * 1000, "slack_ms": slack_ms, "wk": wk, "ev": ev}
         return tr, {"wk": wk, "sig": sig, "phases": phases, "appfin": appfin, "bind": bind, "elapsed_ms": elapsed,
                     "pre": list(pre), "log": s.errlog()[-600:]}
